@@ -3,6 +3,7 @@
 
 // --- names: opaque strings; only equality is observable (A-std: String::clone/to_owned/to_string copy the value) ---
 #[verifier::external_body]
+#[derive(Debug)]
 pub struct Name { s: String }
 impl Name {
     #[verifier::external_body]
@@ -15,9 +16,22 @@ impl Clone for Name {
     fn clone(&self) -> (r: Name) ensures r == *self { unimplemented!() }
 }
 
+#[derive(Debug)]
 pub enum IggyError {
     InvalidIdentifier,
     InvalidTopicSize,
+    StaleClient,
+    Unauthenticated,
+    Unauthorized,
+    StreamIdNotFound(u32),
+    StreamNameNotFound(Name),
+    StreamNameAlreadyExists(Name),
+    StreamIdAlreadyExists(u32),
+    CannotDeleteStream(u32),
+    ConsumerGroupIdNotFound(u32, u32),
+    ConsumerGroupNameNotFound(Name, Name),
+    ConsumerGroupNameAlreadyExists(Name, u32),
+    ConsumerGroupIdAlreadyExists(u32, u32),
     TopicIdNotFound(u32, u32),
     TopicNameNotFound(Name, Name),
     TopicNameAlreadyExists(Name, u32),
@@ -31,7 +45,13 @@ pub enum IggyError {
 pub struct SystemConfig { x: u8 }
 impl Clone for SystemConfig { #[verifier::external_body] fn clone(&self) -> (r: Self) { unimplemented!() } }
 #[verifier::external_body]
-pub struct SystemStorage { x: u8 }
+pub struct PartitionStorage { x: u8 }
+impl PartitionStorage {
+    // removes the offset file; persistence returns Ok (fault scope of C06)
+    #[verifier::external_body]
+    pub fn delete_consumer_offset(&self, path: &Name) -> (r: Result<(), IggyError>) ensures r is Ok { unimplemented!() }
+}
+pub struct SystemStorage { pub partition: PartitionStorage }
 impl Clone for SystemStorage { #[verifier::external_body] fn clone(&self) -> (r: Self) { unimplemented!() } }
 #[verifier::external_body]
 pub struct SharedCounter { x: u8 }
@@ -43,18 +63,22 @@ pub struct CompressionAlgorithm(pub u8);
 #[derive(Clone, Copy)]
 pub struct MaxTopicSize(pub u64);
 
-// R6: AtomicU32 id allocators as plain integers; their value is not part of the catalogue view (C05 owns them)
-pub struct Counter32 { pub v: u32 }
+// R6: AtomicU32 id allocators. Their value is not part of the catalogue view (C05 owns the allocation policy), and C06
+// must hold whatever id they hand out: so they stay opaque cells read and written through `&self`, returning arbitrary ids.
+#[verifier::external_body]
+pub struct Counter32 { v: std::sync::atomic::AtomicU32 }
 impl Counter32 {
     #[verifier::external_body]
-    pub fn fetch_add(&mut self, n: u32) -> (r: u32)
-        ensures r == old(self).v, final(self).v == (if old(self).v as int + n as int > u32::MAX { (old(self).v as int + n as int - 0x1_0000_0000) as u32 } else { (old(self).v + n) as u32 }),
-    { unimplemented!() }
+    pub const fn new(v: u32) -> (r: Counter32) { Counter32 { v: std::sync::atomic::AtomicU32::new(v) } }
     #[verifier::external_body]
-    pub fn load(&self) -> (r: u32) ensures r == self.v { unimplemented!() }
+    pub fn fetch_add(&self, n: u32) -> (r: u32) { unimplemented!() }
     #[verifier::external_body]
-    pub fn store(&mut self, n: u32) ensures final(self).v == n { unimplemented!() }
+    pub fn load(&self) -> (r: u32) { unimplemented!() }
+    #[verifier::external_body]
+    pub fn store(&self, n: u32) { unimplemented!() }
 }
+// the process-global stream id allocator of systems/streams.rs (`static CURRENT_STREAM_ID: AtomicU32`)
+exec static CURRENT_STREAM_ID: Counter32 ensures true { Counter32::new(1) }
 
 // DashMap: sharded concurrent map mutated through `&self`; consumer offsets are C07's state, not viewed here
 #[verifier::external_body]
@@ -109,6 +133,10 @@ pub struct Session { x: u8 }
 impl Session {
     #[verifier::external_body]
     pub fn get_user_id(&self) -> (r: u32) { unimplemented!() }
+    #[verifier::external_body]
+    pub fn is_active(&self) -> (r: bool) { unimplemented!() }
+    #[verifier::external_body]
+    pub fn is_authenticated(&self) -> (r: bool) { unimplemented!() }
 }
 #[verifier::external_body]
 pub struct Permissioner { x: u8 }
@@ -159,7 +187,7 @@ pub open spec fn denotes(ident: &Identifier, idx: Map<Name, u32>) -> Option<u32>
 
 // Stream: topics by id, topics_ids by name
 pub open spec fn topic_cat(s: &Stream) -> Map<u32, Name> {
-    Map::new(|id: u32| s.topics@.contains_key(id), |id: u32| s.topics@[id].name)
+    Map::new(s.topics@.dom(), |id: u32| s.topics@[id].name)
 }
 pub open spec fn stream_wf(s: &Stream) -> bool {
     &&& forall|id: u32| #[trigger] s.topics@.contains_key(id) ==> s.topics@[id].topic_id == id
@@ -176,4 +204,91 @@ pub open spec fn topic_of(s: &Stream, ident: &Identifier) -> Option<u32> {
 // every field of the stream record except the two catalogue maps and the id allocator
 pub open spec fn stream_rest_same(a: &Stream, b: &Stream) -> bool {
     a.stream_id == b.stream_id && a.name == b.name
+}
+// only the `topics` map of the stream record differs
+pub open spec fn stream_only_topics(a: &Stream, b: &Stream) -> bool {
+    *b == (Stream { topics: b.topics, ..*a })
+}
+// only the two catalogue maps of the stream record differ
+pub open spec fn stream_only_catalogue(a: &Stream, b: &Stream) -> bool {
+    *b == (Stream { topics: b.topics, topics_ids: b.topics_ids, ..*a })
+}
+// only the partitions of a topic record differ
+pub open spec fn topic_only_partitions(a: Topic, b: Topic) -> bool {
+    b == (Topic { partitions: b.partitions, ..a })
+}
+// a failed command changes nothing: both catalogue maps keep their contents, every other field is untouched
+pub open spec fn stream_unchanged(a: &Stream, b: &Stream) -> bool {
+    b.topics@ =~= a.topics@ && b.topics_ids@ =~= a.topics_ids@ && stream_only_catalogue(a, b)
+}
+
+// --- Stream: construction, persistence and the gauges read for the metrics are other subsystems ---
+impl Stream {
+    #[verifier::external_body]
+    pub fn create(id: u32, name: &Name, config: SystemConfig, storage: SystemStorage) -> (r: Stream)
+        ensures r.stream_id == id && r.name == *name
+            && r.topics@ == Map::<u32, Topic>::empty() && r.topics_ids@ == Map::<Name, u32>::empty(),
+    { unimplemented!() }
+    #[verifier::external_body]
+    pub fn persist(&self) -> (r: Result<(), IggyError>) ensures r is Ok { unimplemented!() }
+    #[verifier::external_body]
+    pub fn delete(&self) -> (r: Result<(), IggyError>) ensures r is Ok { unimplemented!() }
+    #[verifier::external_body]
+    pub fn get_partitions_count(&self) -> (r: u32) { unimplemented!() }
+    #[verifier::external_body]
+    pub fn get_messages_count(&self) -> (r: u64) { unimplemented!() }
+    #[verifier::external_body]
+    pub fn get_segments_count(&self) -> (r: u32) { unimplemented!() }
+}
+
+// System: streams by id, streams_ids by name
+pub open spec fn stream_cat(s: &System) -> Map<u32, Name> {
+    Map::new(s.streams@.dom(), |id: u32| s.streams@[id].name)
+}
+pub open spec fn system_wf(s: &System) -> bool {
+    &&& forall|id: u32| #[trigger] s.streams@.contains_key(id) ==> s.streams@[id].stream_id == id
+            && s.streams_ids@.contains_key(s.streams@[id].name) && s.streams_ids@[s.streams@[id].name] == id
+    &&& forall|n: Name| #[trigger] s.streams_ids@.contains_key(n) ==> s.streams@.contains_key(s.streams_ids@[n]) && s.streams@[s.streams_ids@[n]].name == n
+}
+pub open spec fn stream_of(s: &System, ident: &Identifier) -> Option<u32> {
+    match denotes(ident, s.streams_ids@) {
+        Some(id) => if s.streams@.contains_key(id) { Some(id) } else { None },
+        None => None,
+    }
+}
+pub open spec fn system_only_streams(a: &System, b: &System) -> bool {
+    *b == (System { streams: b.streams, ..*a })
+}
+pub open spec fn system_only_catalogue(a: &System, b: &System) -> bool {
+    *b == (System { streams: b.streams, streams_ids: b.streams_ids, ..*a })
+}
+pub open spec fn system_unchanged(a: &System, b: &System) -> bool {
+    b.streams@ =~= a.streams@ && b.streams_ids@ =~= a.streams_ids@ && system_only_catalogue(a, b)
+}
+
+// Topic: consumer_groups by id, consumer_groups_ids by name
+pub open spec fn group_cat(t: &Topic) -> Map<u32, Name> {
+    Map::new(t.consumer_groups@.dom(), |id: u32| t.consumer_groups@[id].name)
+}
+pub open spec fn topic_wf(t: &Topic) -> bool {
+    &&& forall|id: u32| #[trigger] t.consumer_groups@.contains_key(id) ==> t.consumer_groups@[id].group_id == id
+            && t.consumer_groups_ids@.contains_key(t.consumer_groups@[id].name) && t.consumer_groups_ids@[t.consumer_groups@[id].name] == id
+    &&& forall|n: Name| #[trigger] t.consumer_groups_ids@.contains_key(n) ==> t.consumer_groups@.contains_key(t.consumer_groups_ids@[n])
+            && t.consumer_groups@[t.consumer_groups_ids@[n]].name == n
+}
+pub open spec fn group_of(t: &Topic, ident: &Identifier) -> Option<u32> {
+    match denotes(ident, t.consumer_groups_ids@) {
+        Some(id) => if t.consumer_groups@.contains_key(id) { Some(id) } else { None },
+        None => None,
+    }
+}
+pub open spec fn topic_only_catalogue(a: &Topic, b: &Topic) -> bool {
+    *b == (Topic { consumer_groups: b.consumer_groups, consumer_groups_ids: b.consumer_groups_ids, ..*a })
+}
+pub open spec fn topic_unchanged(a: &Topic, b: &Topic) -> bool {
+    b.consumer_groups@ =~= a.consumer_groups@ && b.consumer_groups_ids@ =~= a.consumer_groups_ids@ && topic_only_catalogue(a, b)
+}
+// identifiers are validated when decoded (sdk Identifier::from_bytes / validate): a numeric identifier is 4 bytes long
+pub open spec fn ident_valid(ident: &Identifier) -> bool {
+    ident.kind == IdKind::Numeric ==> ident.length == 4
 }
